@@ -236,10 +236,17 @@ struct Value {
             s << int64;
             break;
         case T_DATA:
-            if (data.size() < 5) {
-                // we need to push this as a number
-                int64_t i = int_value();
-                s << i;
+            // push exactly these bytes, in the minimal form the interpreter requires (BIP62 rule 3)
+            if (data.size() == 0) {
+                s << OP_0;
+                break;
+            }
+            if (data.size() == 1 && data[0] >= 1 && data[0] <= 16) {
+                s << CScript::EncodeOP_N(data[0]);
+                break;
+            }
+            if (data.size() == 1 && data[0] == 0x81) {
+                s << OP_1NEGATE;
                 break;
             }
             // fall-through
